@@ -774,9 +774,16 @@ class SyncInterpreter(BaseInterpreter[TContext, TEvent]):
             "🔍 Checking 'done' status for ancestors of final state '%s'.",
             final_state.id,
         )
+        fired = False
         while ancestor:
             # 🧐 Check if the ancestor has an `on_done` handler and is fully completed.
-            if ancestor.on_done and self._is_state_done(ancestor):
+            #    Above the nearest handler only PARALLEL ancestors still fire —
+            #    see `BaseInterpreter._check_and_fire_on_done`.
+            if (
+                ancestor.on_done
+                and (not fired or ancestor.type == "parallel")
+                and self._is_state_done(ancestor)
+            ):
                 done_event_type = f"done.state.{ancestor.id}"
                 logger.info(
                     "🥳 State '%s' is done! Queuing onDone event: '%s'",
@@ -792,7 +799,7 @@ class SyncInterpreter(BaseInterpreter[TContext, TEvent]):
                         src=ancestor.id,
                     )
                 )
-                return  # 🛑 Only fire the event for the nearest completed ancestor.
+                fired = True
 
             ancestor = ancestor.parent
 
